@@ -61,13 +61,19 @@ def meanTable (inp : Input α) (labels : List Nat) : List (List α) :=
   (List.range inp.K).map fun k =>
     (List.range inp.d).map fun j => Numeric.clusterMean inp.data (Repop.members labels k) j
 
+/-- some cluster holds no window: `update_cluster_member_data_statistics` asserts `cluster.size > 0`
+(cluster_maintenance.py:255), so the statistics phase fails on such a labelling. -/
+def hasEmpty (K : Nat) (labels : List Nat) : Bool :=
+  (List.range K).any (fun k => Repop.size labels k == 0)
+
 def phases (inp : Input α) (orc : Oracles α) : MainLoop.Phases (St α) String where
   repop := fun s =>
     match Repop.repopulate inp.K inp.m (orc.spread s.round) (orc.pick s.round) (orc.order s.round) s.labels with
     | some l => .ok { s with labels := l }
     | none => .error "no-donor"
   stats := fun s =>
-    .ok { s with means := meanTable inp s.labels, fitted := s.labels }
+    if hasEmpty inp.K s.labels then .error "empty-cluster"
+    else .ok { s with means := meanTable inp s.labels, fitted := s.labels }
   opt := fun s => .ok s
   relabel := fun s =>
     let r := Viterbi.viterbiFast inp.K (costPoints inp orc s)
